@@ -139,6 +139,8 @@ class JsonResource(Resource):
     #     return result
 
     def to_dict(self, obj, is_noncont_ref=False, is_attr=False, feature=None):
+        if obj is None:
+            return None
         if isinstance(obj, type) and issubclass(obj, EObject):
             if is_noncont_ref:
                 fun = self._to_ref_from_obj
@@ -229,7 +231,9 @@ class JsonResource(Resource):
 
     def process_inst(self, inst, features, owning_feature=None):
         for feature, value in features:
-            if feature._eType is EStringToStringMapEntry and isinstance(value, dict):
+            if value is None:
+                inst.eSet(feature, None)
+            elif feature._eType is EStringToStringMapEntry and isinstance(value, dict):
                 key, val = next(iter(value.items()))
                 inst.eGet(feature)[key] = val
             elif isinstance(value, dict):
